@@ -73,8 +73,10 @@ pub fn run_obs(op: &str, step: &Value, regs: &Regs, ctx: &mut Ctx, keys: &crate:
             if flat.contains('\n') {
                 return Err("format_flat contains a line break".into());
             }
-            if hexs != hx(&e.tagged_cbor().to_cbor_data()) {
-                return Err("hex() is not the hex of the encoding".into());
+            // hex() is an annotated dump: its hex digits, in order, are the encoding
+            let digits: String = hexs.lines().map(|l| l.split('#').next().unwrap_or("")).collect::<String>().chars().filter(|c| c.is_ascii_hexdigit()).collect();
+            if digits != hx(&e.tagged_cbor().to_cbor_data()) {
+                return Err("the hex digits of hex() are not the encoding".into());
             }
             let back = Envelope::from_ur_string(&ur).map_err(|x| format!("UR does not parse back: {}", x))?;
             if !back.is_identical_to(e) {
